@@ -467,6 +467,25 @@ theorem terminals_are_maximal_chain_ends_partial (atoms : List PAtom) (g : Graph
         path.getLast? = some tm ∧ k ∈ keys4 path) :=
   ⟨fun _ h => cumulenes_maximal g hn h, fun _ hp _ _ _ hl => terminals_entry_maximal g hn hp hl⟩
 
+/-- **`KeysDisjoint` is a theorem for molecules without a hypervalent centre inside a chain**: the chains `cumulenes` reports are
+    then the connected components of the double-bond graph that contain a terminal; two of them never share an atom (a later walk
+    that touched an earlier complete chain would lie inside it and start at one of its two, already consumed, terminals). -/
+theorem keys_disjoint_without_hypervalent (atoms : List PAtom) (g : GraphOK atoms) (hn : NoHyperDouble atoms)
+    (p : Perceived) (hp : perceive atoms = .ok p) : KeysDisjoint (p.stereogenic.map (·.1)) :=
+  keysDisjoint_of_noHyper g hn hp
+
+/-- **cis/trans labels survive, every hypothesis on the molecule itself**: ∀ molecule within the format limits (`WF` with the
+    perceived terminals) without a hypervalent centre inside a chain (`NoHyperDouble`) whose marks sit on perceived stereogenic
+    double bonds (`MarksOK`): the perception succeeds, `packFull` succeeds and `unpackFull` returns the molecule with every mark.
+    No `CentersOK`, no `KeysDisjoint`, no "if the perception returns". -/
+theorem stereo_roundtrip_no_hypervalent (atoms : List PAtom) (g : GraphOK atoms) (hn : NoHyperDouble atoms) :
+    ∃ p, perceive atoms = .ok p ∧
+      (WF ⟨atoms, p.terminals⟩ → MarksOK atoms (p.stereogenic.map (·.1)) →
+        ∀ rest : List Nat, ∃ bytes, packFull atoms = .ok bytes ∧
+          unpackFull (bytes ++ rest) = .ok ⟨atoms, ctListOf p.terminals (firstSeen [] atoms), bytes.length⟩) := by
+  obtain ⟨p, hp⟩ := perceive_ok g
+  exact ⟨p, hp, fun h hm rest => pack_unpack_full_aux atoms p hp h hm (keysDisjoint_of_noHyper g hn hp) rest⟩
+
 /-- `NoHyperDouble` is satisfiable by a molecule with a three-coordinate end atom (the iminium end of `exTriene`) -/
 example : NoHyperDouble exTriene := noHyperDoubleb_sound _ (by decide +kernel)
 
